@@ -447,6 +447,10 @@ def _flag_strip_points(body):
             b = peel(body.operand_expr(t["msg"]["b"]), through_try=False)
             if b.k == "const" and b.v == 7:
                 anchors.append(bb)
+        elif t["k"] == "call" and t["f"].get("name") in ("checked_sub", "saturating_sub", "wrapping_sub") and len(t["args"]) == 2:
+            b = peel(body.operand_expr(t["args"][1]), through_try=False)       # `bits.len().checked_sub(7)`
+            if b.k == "const" and b.v == 7:
+                anchors.append(bb)
     return anchors
 
 
@@ -610,6 +614,9 @@ def rule_r9(facts, col, rule_id="C13.R9"):
                 continue
             if t.get("sp", {}).get("x"):
                 continue      # inside a macro expansion (logging)
+            pv = peel(body.operand_expr(t["args"][1]), through_try=False)
+            if not (pv.k in ("const", "param") or (pv.k == "cast" and pv.a is not None and peel(pv.a, through_try=False).k in ("const", "param"))):
+                continue      # a computed byte (bits packed into bytes after the frame ended), not a collected bit
             n += 1
             key = "%s:push#%d" % (body0.q, n)
             ok = False
